@@ -99,8 +99,14 @@ CHECKS.update({
 ENGINES[0]["serves_properties"] = sorted(CHECKS.keys())
 ENGINES.append({"name": "grammardump", "path": "engines/grammardump", "serves_properties": ["C04", "C05", "C06"], "kind_free_text": "pest_meta front end dumping grammar.pest as JSON; consumed by rules/peg.py (child-sequence DFAs, PEG matcher)"})
 
+CHECKS.update({
+    "C16": _c("mirfacts", "who-reads rule on the bound, guard extraction (comparisons with the bound as terms), dominance of the approximating branch, sibling agreement of the two interval constructors, constant relation between the two guard thresholds",
+              "Decides the clauses visible in the shape of the code: the bound is only ever compared; the reporting guard measures the very interval it reports and its taken branch replaces only the end, by the constant DATE_END (start, kind and comments are those of the exact answer, so state is unchanged and an approximated answer is none, never another time); the early exit only returns; its threshold exceeds the reporting threshold by at least one day with the same bound, so a consumption cut short is always reported as none; the builder stores the bound unchanged. Does not decide the two value statements (exact within B - 24 h, none beyond B) nor the iterator state an early exit leaves for later calls.",
+              "DESIGN.md section 3, C16", _TB + "Claimed for the named clauses only; the first design declined the property as a whole."),
+})
+ENGINES[0]["serves_properties"] = sorted(CHECKS.keys())
+
 NOT_APPLICABLE = {
-    "C16": "Every sentence compares durations measured at run time from two reference points of a stateful iterator; no clause whose truth is visible in the shape of the code could be separated without either inter-call path-sensitive taint over iterator state or freezing a source fragment (DESIGN.md section 4).",
 }
 
 # properties whose rules are still being built are listed as not applicable until their check exists
